@@ -24,6 +24,13 @@ Proof. exact (conj (empty_as_number N) (conj (empty_as_text N) (empty_as_bool N)
 Theorem C06_true_is_one : cast_to_number N (VBool true) = ROk (none_ N) /\ cast_to_number N (VBool false) = ROk (nzero N).
 Proof. exact (conj (true_as_number N) (false_as_number N)). Qed.
 
+(* a text used as a logical is compared AFTER lowercasing: every case variant of "true"/"false" counts, nothing else does *)
+Theorem C06_text_as_bool_case_insensitive : forall s,
+  (str_lower N s = t_true -> cast_to_bool N (VStr s) = ROk true) /\
+  (str_lower N s = t_false -> cast_to_bool N (VStr s) = ROk false) /\
+  (str_lower N s <> t_true -> str_lower N s <> t_false -> cast_to_bool N (VStr s) = RErr EVALUE).
+Proof. exact (text_as_bool_case_insensitive N). Qed.
+
 (* text operands of arithmetic go through of_text, else #VALUE! *)
 Theorem C06_text_operand : forall o l r s, ev l = VStr s ->
   (nof_text N s = None -> ev (EBin o l r) = VErr EVALUE) /\
@@ -100,6 +107,7 @@ Print Assumptions C06_left_error_wins.
 Print Assumptions C06_right_error_after_number.
 Print Assumptions C06_empty_by_context.
 Print Assumptions C06_true_is_one.
+Print Assumptions C06_text_as_bool_case_insensitive.
 Print Assumptions C06_text_operand.
 Print Assumptions C06_arithmetic_on_numbers.
 Print Assumptions C06_division_by_zero.
@@ -120,3 +128,11 @@ Example C06_preorder_hypotheses_satisfiable :
   (forall x y z, ncmp ZOps x y <> Gt -> ncmp ZOps y z <> Gt -> ncmp ZOps x z <> Gt).
 Proof. exact (conj Z.compare_refl (conj (fun x y => Z.compare_antisym x y)
   (fun x y z H1 H2 => proj1 (Z.compare_le_iff x z) (Z.le_trans x y z (proj2 (Z.compare_le_iff x y) H1) (proj2 (Z.compare_le_iff y z) H2))))). Qed.
+
+(* all 16 spellings of "true" and all 32 of "false" (ASCII case mapping) cast to TRUE / FALSE; " TRUE" does not *)
+Example C06_all_case_variants_of_true_false :
+  forallb (fun v => match cast_to_bool ZOps (VStr v) with ROk true => true | _ => false end) (case_variants t_true) = true /\
+  forallb (fun v => match cast_to_bool ZOps (VStr v) with ROk false => true | _ => false end) (case_variants t_false) = true /\
+  length (case_variants t_true) = 16%nat /\ length (case_variants t_false) = 32%nat /\
+  cast_to_bool ZOps (VStr [32; 84; 82; 85; 69]) = RErr EVALUE.
+Proof. exact all_case_variants_of_true_false. Qed.
